@@ -63,7 +63,8 @@ type YN struct {
 	Items   []*YN
 	Keys    []*YN
 	Vals    []*YN
-	Merge   []bool // Keys[i] is a `<<` merge key, Vals[i] an alias to a mapping
+	Merge   []bool // Keys[i] is a `<<` merge key, Vals[i] an alias to a mapping (or a flow sequence of such aliases)
+	NoAlias bool   // the items of this sequence are a merge list: never replaced by other aliases
 	// anchors
 	Anchor string
 	Target *YN
@@ -99,8 +100,18 @@ func (n *YN) Resolve(unordered map[*ref.V]bool) *ref.V {
 	merged := false
 	for i, k := range n.Keys {
 		if n.Merge != nil && n.Merge[i] {
-			src := n.Vals[i].Resolve(unordered)
-			v.M = append(v.M, src.M...)
+			// `<<: *a` or `<<: [*a, *b]`: in a list the earlier map wins a key both have
+			srcs := []*YN{n.Vals[i]}
+			if n.Vals[i].Kind == YSeq {
+				srcs = n.Vals[i].Items
+			}
+			for _, sn := range srcs {
+				for _, kv := range sn.Resolve(unordered).M {
+					if _, dup := v.Get(kv.K); !dup {
+						v.M = append(v.M, kv)
+					}
+				}
+			}
 			merged = true
 			continue
 		}
@@ -862,7 +873,7 @@ func C06AddAliases(r *rand.Rand, root *YN, merges bool) (int, int) {
 		}
 		var cands []ySlot
 		for _, p := range sl {
-			if p.start > t.end && p.parent != nil && !yHasAnchor(p.node) && !(p.parent.Merge != nil && p.parent.Merge[p.idx]) {
+			if p.start > t.end && p.parent != nil && !p.parent.NoAlias && !yHasAnchor(p.node) && !(p.parent.Merge != nil && p.parent.Merge[p.idx]) {
 				cands = append(cands, p)
 			}
 		}
@@ -1301,6 +1312,36 @@ func C06MergeDoc(r *rand.Rand, p C06Prof) (*YN, int) {
 		if r.IntN(3) == 0 {
 			items = append(items, &YN{Kind: YAlias, Target: b}) // and a plain alias of the base
 		}
+	}
+	if len(bases) == 2 && r.IntN(2) == 0 {
+		// a merge of a merge: X merges the LIST [*a, *b] whose maps share a key, Y merges X
+		for i, b := range bases {
+			b.Keys = append(b.Keys, YStr(r, "shared", 2))
+			b.Vals = append(b.Vals, &YN{Kind: YScalar, Val: ref.IntV(int64(10 * (i + 1))), Text: fmt.Sprint(10 * (i + 1)), Spell: "dec"})
+			if r.IntN(2) == 0 {
+				b.Keys = append(b.Keys, YStr(r, "shared2", 2))
+				b.Vals = append(b.Vals, &YN{Kind: YScalar, Val: ref.StrV(fmt.Sprintf("from%d", i)), Text: fmt.Sprintf("from%d", i)})
+			}
+		}
+		order := []*YN{bases[0], bases[1]}
+		if r.IntN(2) == 0 {
+			order[0], order[1] = order[1], order[0]
+		}
+		x := newMap("x-", true)
+		x.Anchor = "mx"
+		lst := &YN{Kind: YSeq, Flow: true, NoAlias: true, Items: []*YN{{Kind: YAlias, Target: order[0]}, {Kind: YAlias, Target: order[1]}}}
+		x.Keys = append([]*YN{{Kind: YScalar, Val: ref.StrV("<<"), Text: "<<"}}, x.Keys...)
+		x.Vals = append([]*YN{lst}, x.Vals...)
+		x.Merge = make([]bool, len(x.Keys))
+		x.Merge[0] = true
+		y := newMap("y-", rootFlow || r.IntN(2) == 0)
+		pos := r.IntN(len(y.Keys) + 1)
+		y.Keys = append(append(append([]*YN{}, y.Keys[:pos]...), &YN{Kind: YScalar, Val: ref.StrV("<<"), Text: "<<"}), y.Keys[pos:]...)
+		y.Vals = append(append(append([]*YN{}, y.Vals[:pos]...), &YN{Kind: YAlias, Target: x}), y.Vals[pos:]...)
+		y.Merge = make([]bool, len(y.Keys))
+		y.Merge[pos] = true
+		items = append(items, x, y)
+		merges += 2
 	}
 	root := &YN{Step: 1 + r.IntN(4), Flow: rootFlow, Dedent: r.IntN(2) == 0}
 	if r.IntN(2) == 0 {
